@@ -1,6 +1,7 @@
 import NA.Model.PanOs
 import NA.Core.IOUtil
 import NA.Spec.PanOsWhole
+import NA.Model.PanOsGrpPair
 /-!
 Driver for C03 (and the PAN-OS share of C07, C08, C10).  One request per line, fields separated
 by TAB; every string is percent-encoded (safe: letters, digits, `_ . -`; the empty string is `~`).
@@ -17,7 +18,7 @@ by TAB; every string is percent-encoded (safe: letters, digits, `_ . -`; the emp
   answer: `ok  <device reached>` or `err  <reason>`.
 * `MYERS n m bits` — the port of `myers.Diff` on an equality matrix; answer: ranges.
 PLAN flags per targeted pair also say whether the pair lies in the fragment of the whole-vsys theorems
-(`plain`, `tnames`, `srvnd`: `PlainPair`, `TgtNames`, `SrvNodup`).
+(`plain`, `tnames`, `srvnd`, `grp`: `PlainPair`, `TgtNames`, `SrvNodup`, `GrpPair`).
 -/
 namespace NA.Drv.C03
 open NA.PanOs
@@ -181,7 +182,7 @@ def pairFlags (sh : Shared) (a b : Vsys) : String :=
   s!"wfA={b2s (wellFormed sh a)},wfB={b2s (wellFormed sh b)},nestA={b2s (!noNested a)},nestB={b2s (!noNested b)}," ++
   s!"sgchg={b2s (sgroupChanged a b)},uniq={b2s (uniqClash a b)},mixed={b2s (hasMixedList a || hasMixedList b)}," ++
   s!"plain={b2s (decide (PlainPair sh a b))},tnames={b2s (decide (TgtNames sh b))}," ++
-  s!"srvnd={b2s (decide (SrvNodup a) && decide (SrvNodup b))}"
+  s!"srvnd={b2s (decide (SrvNodup a) && decide (SrvNodup b))},grp={b2s (decide (GrpPair sh a b))}"
 
 def checkScripts (dev tgt : List Vsys) (s : String) : String :=
   let items := splitNE s "!"
